@@ -161,6 +161,10 @@ class AxisTaint:
             for c in t.conds:
                 self.of(c, safe)
             return self.of(t.elt, safe)
+        if o == "grow":
+            self.of(t.obj, safe)
+            self.of(t.val, safe)
+            return None
         if o == "store":
             self.of(t.obj, safe)
             self.of(t.idx, safe)  # a position: safe use
